@@ -156,6 +156,9 @@ def r06d(ctx, P):
     ctx.floor(rid + ".detector", map_locks, 1, "write-lock acquisitions seen in the removal code (the directory map)")
 
 
+THOROUGH_FEATURES = ['r06d']
+
+
 def run(ctx, progs):
     P = progs.get("default")
     r06a(ctx, P)
